@@ -363,6 +363,14 @@ PLANS = {
                      "robust_orientation, insphere, insphere_lifted, insphere_distance, robust_insphere); TLC computes the "
                      "exact integer sign and the decidability band. distinct non-trivial = distinct (D, s, points, query)",
                 nontrivial=lambda e: ((e["ev"], json.dumps(e.get("args"), sort_keys=True)) if e["ev"] == "Pred" else None)),
+    "C17": dict(level="model_checking", pure_families=[("orderings", 14, 16)],
+                rule="the complete table cell -> hilbert index for every (D, bits) with 2^(D*bits) <= 4096 (quick) / 65536 "
+                     "(thorough), D=1..5, checked by TLC for bijectivity and unit steps (exhaustive over the grid); every "
+                     "ordering strategy (through the hook wrappers and the public hilbert_sorted_indices / "
+                     "hilbert_sort_by_stable) and every dedup variant (public exact/epsilon, and the five internal "
+                     "variants) on lattice vertex lists with ties, exact duplicates, signed zeros, half-unit near "
+                     "duplicates, tiny and huge scales. distinct non-trivial = distinct events",
+                nontrivial=lambda e: ((e["ev"], json.dumps(e.get("args"), sort_keys=True)) if e["ev"] in ("Hilbert", "Order", "Dedup") else None)),
     "C18": dict(level="other", stages=[stage_measures],
                 rule="TLC (Gen_Measures) enumerates every simplex with first vertex at the origin on small grids for "
                      "D=1..3 and a deterministic sample on {0,1,2}^D for D=4,5, with the exact integer ingredients of every "
